@@ -22,7 +22,7 @@ ASSUMPTIONS = [
 ]
 OPEN_STATEMENTS = [
     'Every clause of the property is a theorem about the Model; outside the theorems: tpb_groups_spec is proved under the hypothesis PermsCover (every shuffle lists each current basis at least once — true for genuine permutations); that numpy.random.RandomState.shuffle produces a permutation is part of the trusted base (the recorded shuffles are checked to reproduce the unpatched call).',
-    'binary_partition_iterator / partition_iterator with an explicit num_iterations argument (not the default) are covered by correspondence only (the theorems are about the default, which is what the property states).',
+    'binary_partition_iterator / partition_iterator with an explicit num_iterations = it: PROVED for every budget it >= 1 with n <= 2^it (binary_partition_explicit_spec, partition_iterator_explicit_spec), and a smaller budget yields a prefix of a larger one (binary_partition_prefix); budgets with 2^it < n do not split every pair (no statement; correspondence only).',
 ]
 
 
@@ -60,7 +60,7 @@ _MAX_TIMEOUTS = 4
 _timeouts = [0]
 
 
-def collect(gen_fn, *args, limit=20000, seconds=10):
+def _collect_raw(gen_fn, *args, limit=20000, seconds=10):
     """run a generator function of the implementation -> (list of yields, exception name or None);
     a call that does not finish within `seconds` (or yields without end) is reported, never waited for"""
     import signal
@@ -88,7 +88,7 @@ def collect(gen_fn, *args, limit=20000, seconds=10):
     return out, None
 
 
-def call1(fn, *args, seconds=10):
+def _call1_raw(fn, *args, seconds=10):
     """plain call of the implementation with the same time limit -> (value, exception name or None)"""
     import signal
     if _timeouts[0] >= _MAX_TIMEOUTS:
@@ -109,9 +109,279 @@ def call1(fn, *args, seconds=10):
         signal.signal(signal.SIGALRM, old)
 
 
+
+# ---------------------------------------------------------------- hardening: state / aliasing / containers
+# (S) every sampled call is repeated after an in-place modification of every mutable value the first call
+#     returned, with fresh equal arguments: the second result must equal the first; arguments must come back
+#     unmodified.  (T) container / numeric-type variants of the arguments are used when the unmodified
+#     functions accept them (probed once per run: same result as with the plain types, no exception).
+
+_H = {'stream': None, 'rng': None, 'rate': 0.0}
+
+
+def harden(stream, rng, rate):
+    _H['stream'], _H['rng'], _H['rate'] = stream, rng, rate
+    stream.rule += ('; label lists are given as lists / tuples / lists of numpy.int64 or numpy.int32 / int64 arrays and integer '
+                    'arguments as int / numpy.int64 / numpy.int32 wherever the pinned tree accepts them (table BASELINE); half of '
+                    'the label sets start at 300 or 70000 (beyond the CPython small-int cache)')
+    stream.rule += ('; state checks: every call must leave its arguments unmodified, and on a sample of the calls (all of '
+                    'them in the thorough tier) the returned lists / arrays / dicts / operators are modified in place and the '
+                    'call is repeated with equal fresh arguments: same result required')
+
+
+def norm(x):
+    """container- and numpy-type-insensitive normal form (tuples / arrays -> lists, numpy scalars -> Python)"""
+    import numpy
+    if x is None or isinstance(x, str):
+        return x
+    if isinstance(x, (bool, numpy.bool_)):
+        return bool(x)
+    if isinstance(x, (int, numpy.integer)):
+        return int(x)
+    if isinstance(x, (float, numpy.floating)):
+        return float(x)
+    if isinstance(x, (complex, numpy.complexfloating)):
+        return [float(x.real), float(x.imag)]
+    if isinstance(x, (list, tuple, numpy.ndarray, range)):
+        return [norm(e) for e in x]
+    if isinstance(x, dict):
+        return sorted(([norm(k), norm(v)] for k, v in x.items()), key=repr)
+    if hasattr(x, 'terms'):
+        return ['op', norm(x.terms)]
+    if hasattr(x, 'one_body') and hasattr(x, 'two_body'):
+        return ['dch', norm(x.one_body), norm(x.two_body), norm(getattr(x, 'constant', None))]
+    if hasattr(x, '__dict__'):
+        return [type(x).__name__, norm(vars(x))]
+    return repr(x)
+
+
+def mutate(x):
+    """modify in place every mutable value reachable from a returned object"""
+    import numpy
+    if isinstance(x, list):
+        for e in x:
+            mutate(e)
+        x.reverse()
+        x.append(987654321)        # an integer: a leaked modification still encodes as a (wrong) label
+    elif isinstance(x, tuple):
+        for e in x:
+            mutate(e)
+    elif isinstance(x, numpy.ndarray):
+        if x.flags.writeable and x.size:
+            try:
+                x[...] = 0
+            except Exception:  # noqa: BLE001
+                pass
+    elif isinstance(x, dict):
+        for e in list(x.values()):
+            mutate(e)
+        x.clear()
+    elif hasattr(x, 'terms') and isinstance(x.terms, dict):
+        x.terms.clear()
+
+
+# functions of the unmodified tree whose yields contain the argument list itself
+_ALIAS_OK = ('_gen_partitions', 'partition_iterator')
+
+
+def enc_arg(x):
+    """replayable encoding of an argument (keeps tuple / list / numpy distinctions)"""
+    import numpy
+    if x is None or isinstance(x, (bool, int, str)):
+        return x
+    if isinstance(x, numpy.integer):
+        return {'np': type(x).__name__, 'v': int(x)}
+    if isinstance(x, tuple):
+        return {'t': [enc_arg(e) for e in x]}
+    if isinstance(x, list):
+        return [enc_arg(e) for e in x]
+    if isinstance(x, numpy.ndarray) and x.ndim == 1 and x.dtype.kind == 'i':
+        return {'nd': str(x.dtype), 'v': [int(e) for e in x]}
+    return {'repr': show(norm(x), 400)}
+
+
+def dec_arg(x):
+    import numpy
+    if isinstance(x, list):
+        return [dec_arg(e) for e in x]
+    if isinstance(x, dict):
+        if 't' in x:
+            return tuple(dec_arg(e) for e in x['t'])
+        if 'np' in x:
+            return getattr(numpy, x['np'])(x['v'])
+        if 'nd' in x:
+            return numpy.array(x['v'], dtype=x['nd'])
+        raise ValueError('not replayable')
+    return x
+
+
+def _checked(what, args, run, repeat=True):
+    """run(args) -> (value, exc); adds the (S) checks: arguments unmodified (every call) and, on a sample of the
+    calls, a second call with equal arguments after every mutable value returned by the first one was modified"""
+    import copy
+    import numpy
+    s, rng = _H['stream'], _H['rng']
+    if s is None:
+        return run(args)
+    try:
+        snap = copy.deepcopy(args)
+    except Exception:  # noqa: BLE001
+        return run(args)
+    before = norm(snap)
+    val, exc = run(args)
+    if exc is not None:
+        return val, exc
+    case = {'fn': what, 'state_check': True, 'args': [enc_arg(a) for a in snap]}
+    if norm(args) != before:
+        s.violate('%s modified its arguments' % what, case, {'after': show(norm(args), 600)})
+    if repeat and rng.random() < _H['rate']:
+        s.count('second-call-after-mutation')
+        try:
+            first = copy.deepcopy(val)
+        except Exception:  # noqa: BLE001
+            return val, exc
+        mutate(val)
+        if what not in _ALIAS_OK and not any(isinstance(a, numpy.ndarray) for a in args) and norm(args) != before:
+            s.violate('%s: modifying the returned values changes the arguments (result aliases an argument)' % what, case, {})
+        val2, exc2 = run(copy.deepcopy(snap))
+        if exc2 is not None or norm(val2) != norm(first):
+            s.violate('%s: a second call with equal arguments, after the values returned by the first call were modified '
+                      'in place, gives a different result (state kept between calls / aliased results)' % what,
+                      case, {'first': show(norm(first), 600), 'second': show(norm(val2), 600), 'exception': exc2})
+        return first, exc
+    return val, exc
+
+
+def replay_state(fn, case):
+    """the (S) checks of one recorded call in a fresh process -> True when they pass"""
+    import copy
+    args = [dec_arg(a) for a in case['args']]
+    before = norm(args)
+
+    def run(a):
+        r = fn(*a)
+        return list(r) if hasattr(r, '__next__') else r
+    val = run(args)
+    if norm(args) != before:
+        return False
+    first = copy.deepcopy(val)
+    mutate(val)
+    return norm(run([dec_arg(a) for a in case['args']])) == norm(first)
+
+
+_ACCEPT = {}
+
+
+def accepted(key, run_plain, run_variant):
+    """does the unmodified function accept this container / type variant?  probed once per run on small inputs"""
+    if key not in _ACCEPT:
+        ok = True
+        try:
+            a, ea = run_plain()
+            b, eb = run_variant()
+            ok = ea is None and eb is None and norm(a) == norm(b)
+        except Exception:  # noqa: BLE001
+            ok = False
+        _ACCEPT[key] = ok
+    return _ACCEPT[key]
+
+
+def cont(kind, labs):
+    import numpy
+    if kind == 'tuple':
+        return tuple(labs)
+    if kind == 'npint_list':
+        return [numpy.int64(x) for x in labs]
+    if kind == 'ndarray':
+        return numpy.array(labs, dtype=numpy.int64)
+    if kind == 'int32_list':
+        return [numpy.int32(x) for x in labs]
+    return list(labs)
+
+
+KINDS = ['list', 'list', 'tuple', 'npint_list', 'ndarray', 'int32_list']
+
+# what the pinned (unmodified) tree accepts, found with the probes below (same yields as with plain lists / ints on
+# every probe input).  These variants are used unconditionally: a tree that rejects one of them, or answers
+# differently, fails the ordinary comparison of that case.  Variants the pinned tree rejects (it indexes / concatenates
+# lists: pair_within and the functions built on it raise for tuples and arrays) are never used; anything not listed
+# either way is probed on the tree under test and only used when it behaves like the plain type there.
+BASELINE = set(
+    [(f, k) for f in ('pair_between', '_gen_partitions', 'binary_partition_iterator', 'partition_iterator')
+     for k in ('tuple', 'npint_list', 'ndarray', 'int32_list')] +
+    [(f, k) for f in ('pair_within', 'pair_within_simultaneously', 'binned') for k in ('npint_list', 'int32_list')] +
+    [('_gen_pairings_between_partitions', k) for k in ('tuple', 'npint_list', 'int32_list')] +
+    [('binned:outer', 'tuple')] +
+    [(f, k) for f in ('pair_between:offset', '_get_padding', 'symmetric', 'partition_iterator:int', 'pauli_string_iterator')
+     for k in ('int64', 'int32')])
+_REJECTED_ON_PINNED = set(
+    [f + ':' + k for f in ('pair_within', 'pair_within_simultaneously', 'binned') for k in ('tuple', 'ndarray')] +
+    ['_gen_pairings_between_partitions:ndarray'] + ['binned:outer:' + k for k in ('npint_list', 'ndarray', 'int32_list')])
+
+
+def vary(key, rng, probe):
+    """draw a container kind for label lists (the draw does not depend on the implementation); kinds for which
+    probe(conv) (results on a fixed family of small inputs) differs from the plain-list results, or raises, on the
+    tree under test are replaced by plain lists: never an alarm"""
+    kind = rng.choice(KINDS)
+    if kind == 'list':
+        return kind
+    if (key, kind) in BASELINE:
+        return kind
+    if key + ':' + kind not in _REJECTED_ON_PINNED:
+        ok = accepted((key, kind), lambda: (probe(list), None), lambda: (probe(lambda l: cont(kind, l)), None))
+        return kind if ok else 'list'
+    return 'list'
+
+
+def probe_gen(gen_of, sizes=range(0, 12)):
+    """probe(conv) for a generator function: gen_of(labels, conv) -> iterator"""
+    def probe(conv):
+        out = []
+        for n in sizes:
+            ys, exc = _collect_raw(lambda: gen_of(list(range(3, 3 + n)), conv), limit=5000, seconds=5)
+            out.append([ys, exc])
+        return out
+    return probe
+
+
+INT_KINDS = ['int', 'int', 'int', 'int64', 'int32']
+
+
+def conv_int(kind, x):
+    import numpy
+    if x is None or kind == 'int':
+        return x
+    return numpy.int64(x) if kind == 'int64' else numpy.int32(x)
+
+
+def vary_int(key, rng, probe):
+    """same as vary for integer arguments: Python int / numpy.int64 / numpy.int32"""
+    kind = rng.choice(INT_KINDS)
+    if kind == 'int' or (key, kind) in BASELINE:
+        return kind
+    ok = accepted((key, kind), lambda: (probe(lambda x: x), None), lambda: (probe(lambda x: conv_int(kind, x)), None))
+    return kind if ok else 'int'
+
+
+def rate_for(ctx):
+    return 1.0 if (ctx.drift or ctx.tier != 'quick') else 0.3
+
+
+
+def collect(gen_fn, *args, limit=20000, seconds=10):
+    return _checked(getattr(gen_fn, '__name__', 'generator'), list(args),
+                    lambda a: _collect_raw(gen_fn, *a, limit=limit, seconds=seconds))
+
+
+def call1(fn, *args, seconds=10):
+    return _checked(getattr(fn, '__name__', 'function'), list(args), lambda a: _call1_raw(fn, *a, seconds=seconds))
+
+
 def labels_for(rng, n, shift=True):
     """n distinct labels, in random order"""
-    base = rng.randrange(0, 50) if shift else 0
+    # labels beyond the CPython small-int cache (>= 257) are used as often as small ones
+    base = rng.choice([rng.randrange(0, 50), rng.randrange(0, 50), 300, 70000]) if shift else 0
     labs = list(range(base, base + n))
     rng.shuffle(labs)
     return labs
@@ -210,8 +480,11 @@ def stream_pair_between(ctx, fp):
                'distinct shuffled integer labels; yields compared in order with the Model; Spec: every yield is a matching of '
                'all labels with |a-b| leftovers and every cross pair occurs exactly once (offset 0); non-trivial = a, b >= 1')
     rng = rng_for(ctx.seed, 'c18-pb')
+    harden(s, rng_for(ctx.seed, 'c18-pb-state'), rate_for(ctx))
     nmax = budget('thorough' if ctx.drift else ctx.tier, 14, 40)
     b = Batch(ctx, s)
+    probe = probe_gen(lambda l, conv: fp.pair_between(conv(l[:len(l) // 3]), conv(l[len(l) // 3:])))
+    probe_off = lambda conv: [_collect_raw(fp.pair_between, [1, 2, 3], [4, 5, 6, 7, 8], conv(o), seconds=5) for o in (0, 1, 2)]  # noqa: E731
     for n1 in range(0, nmax + 1):
         for n2 in range(0, nmax + 1):
             if n1 > 16 and n2 > 16 and rng.random() < 0.5 and ctx.tier == 'quick':
@@ -220,8 +493,11 @@ def stream_pair_between(ctx, fp):
             f1, f2 = labs[:n1], labs[n1:]
             offs = [0] + ([rng.choice([1, 2, 3])] if rng.random() < 0.3 else [])
             for off in offs:
-                ys, exc = collect(fp.pair_between, list(f1), list(f2), off)
-                case = {'fn': 'pair_between', 'frag1': f1, 'frag2': f2, 'start_offset': off}
+                kind = vary('pair_between', rng, probe)
+                ikind = vary_int('pair_between:offset', rng, probe_off)
+                ys, exc = collect(fp.pair_between, cont(kind, f1), cont(kind, f2), conv_int(ikind, off))
+                case = {'fn': 'pair_between', 'frag1': f1, 'frag2': f2, 'start_offset': off, 'container': kind, 'int_type': ikind}
+                s.count('container:' + kind)
                 s.case(case, nontrivial=(n1 >= 1 and n2 >= 1))
                 s.count('len1<len2' if n1 < n2 else 'len1=len2' if n1 == n2 else 'len1>len2')
                 if exc:
@@ -243,13 +519,17 @@ def stream_pair_within(ctx, fp):
                'yields compared in order with the Model; Spec: every yield is a perfect matching (one bare label when the '
                'length is odd) and all unordered pairs occur; non-trivial = length >= 2; distribution by length mod 4')
     rng = rng_for(ctx.seed, 'c18-pw')
+    harden(s, rng_for(ctx.seed, 'c18-pw-state'), rate_for(ctx))
     nmax = budget('thorough' if ctx.drift else ctx.tier, 64, 100)
     b = Batch(ctx, s)
+    probe = probe_gen(lambda l, conv: fp.pair_within(conv(l)))
     for n in range(0, nmax + 1):
         for rep in range(2 if n <= 40 else 1):
             labs = labels_for(rng, n) if rep else list(range(n))
-            ys, exc = collect(fp.pair_within, list(labs))
-            case = {'fn': 'pair_within', 'labels': labs}
+            kind = vary('pair_within', rng, probe)
+            ys, exc = collect(fp.pair_within, cont(kind, labs))
+            case = {'fn': 'pair_within', 'labels': labs, 'container': kind}
+            s.count('container:' + kind)
             s.case(case, nontrivial=n >= 2)
             s.count('len%%4=%d' % (n % 4))
             if exc:
@@ -270,35 +550,43 @@ def stream_helpers(ctx, fp):
                '_parallel_iter / _asynchronous_iter on random lists of disjoint pairings (Spec: any two results of two '
                'different iterators occur together in a yield); compared with the Model in order')
     rng = rng_for(ctx.seed, 'c18-helpers')
+    harden(s, rng_for(ctx.seed, 'c18-helpers-state'), rate_for(ctx))
     b = Batch(ctx, s)
+    probe_gp = probe_gen(lambda l, conv: fp._gen_partitions(conv(l)), range(1, 12))
+    probe_gpb = probe_gen(lambda l, conv: fp._gen_pairings_between_partitions(conv(l[:len(l) // 2]), conv(l[len(l) // 2:])),
+                          range(4, 13))
+    probe_pad = lambda conv: [_call1_raw(fp._get_padding, conv(nb), conv(sz), seconds=5)  # noqa: E731
+                              for nb in (0, 3, 5, 8) for sz in (1, 6, 7, 30)]
     nmax = budget('thorough' if ctx.drift else ctx.tier, 40, 100)
     for n in range(1, nmax + 1):
-        labs = list(range(n))
-        ys, exc = collect(fp._gen_partitions, list(labs))
-        case = {'fn': '_gen_partitions', 'labels': n}
+        labs = list(range(n)) if n % 2 else labels_for(rng, n)
+        kind = vary('_gen_partitions', rng, probe_gp)
+        ys, exc = collect(fp._gen_partitions, cont(kind, labs))
+        case = {'fn': '_gen_partitions', 'labels': labs, 'container': kind}
         s.case(case)
         s.count('_gen_partitions')
         if exc:
             s.violate('unexpected exception ' + exc, case, {})
             continue
-        impl = [[list(p) for p in part] for part in ys]
+        impl = [[norm(p) for p in part] for part in ys]
         b.add(case, impl, {'op': 'c18.gen_partitions', 'labels': labs})
         if n <= 24:
             for ms in (2, 3, 6):
                 ys, exc = collect(fp._gen_partitions, list(labs), ms)
-                case = {'fn': '_gen_partitions', 'labels': n, 'min_size': ms}
+                case = {'fn': '_gen_partitions', 'labels': labs, 'min_size': ms}
                 s.case(case)
                 s.count('_gen_partitions:min_size')
                 if exc:
                     s.violate('unexpected exception ' + exc, case, {})
                     continue
-                b.add(case, [[list(p) for p in part] for part in ys], {'op': 'c18.gen_partitions', 'labels': labs, 'min_size': ms})
+                b.add(case, [[norm(p) for p in part] for part in ys], {'op': 'c18.gen_partitions', 'labels': labs, 'min_size': ms})
     for na in range(2, 8):
         for nb in range(2, 8):
             labs = labels_for(rng, na + nb)
             pa, pb = labs[:na], labs[na:]
-            ys, exc = collect(fp._gen_pairings_between_partitions, list(pa), list(pb))
-            case = {'fn': '_gen_pairings_between_partitions', 'parta': pa, 'partb': pb}
+            kind = vary('_gen_pairings_between_partitions', rng, probe_gpb)
+            ys, exc = collect(fp._gen_pairings_between_partitions, cont(kind, pa), cont(kind, pb))
+            case = {'fn': '_gen_pairings_between_partitions', 'parta': pa, 'partb': pb, 'container': kind}
             s.case(case)
             s.count('_gen_pairings_between_partitions')
             if exc:
@@ -307,8 +595,9 @@ def stream_helpers(ctx, fp):
             b.add(case, [enc_pairing(y) for y in ys], {'op': 'c18.gen_pairings_between', 'a': pa, 'b': pb})
     for bins in range(0, 25):
         for size in range(0, 65):
-            r, exc = call1(fp._get_padding, bins, size, seconds=5)
-            case = {'fn': '_get_padding', 'num_bins': bins, 'bin_size': size}
+            ikind = vary_int('_get_padding', rng, probe_pad)
+            r, exc = call1(fp._get_padding, conv_int(ikind, bins), conv_int(ikind, size), seconds=5)
+            case = {'fn': '_get_padding', 'num_bins': bins, 'bin_size': size, 'int_type': ikind}
             s.case(case, nontrivial=bins > 3)
             s.count('_get_padding')
             if exc:
@@ -338,8 +627,15 @@ def stream_helpers(ctx, fp):
             continue
         enc = [[enc_pairing(p) for p in lst] for lst in lists]
         which = rng.choice(['_parallel_iter', '_asynchronous_iter', '_asynchronous_iter'])
-        ys, exc = collect(getattr(fp, which), [list(lst) for lst in lists], True)
-        case = {'fn': which, 'flatten': True, 'lists': enc}
+        okind = rng.choice(['list', 'list', 'tuple'])
+        if okind == 'tuple' and not accepted(
+                (which, 'tuple'),
+                lambda: _collect_raw(getattr(fp, which), [[((1, 2),), ((3, 4),)], [((5, 6),)], [((7, 8),), ((9, 10), 11)]], True),
+                lambda: _collect_raw(getattr(fp, which), ((((1, 2),), ((3, 4),)), (((5, 6),),), (((7, 8),), ((9, 10), 11))), True)):
+            okind = 'list'
+        mk = tuple if okind == 'tuple' else list
+        ys, exc = collect(getattr(fp, which), mk(mk(lst) for lst in lists), True)
+        case = {'fn': which, 'flatten': True, 'lists': enc, 'container': okind}
         s.case(case)
         s.count(which)
         impl = None if exc else [enc_pairing(y) for y in ys]
@@ -370,10 +666,15 @@ def stream_pws(ctx, fp):
     nmax = budget(t, 32, 48)
     nspec = budget(t, 20, 30)
     b = Batch(ctx, s)
-    for n in range(0, nmax + 1):
+    harden(s, rng_for(ctx.seed, 'c18-pws-state'), rate_for(ctx))
+    probe = probe_gen(lambda l, conv: fp.pair_within_simultaneously(conv(l)))
+    # every length once, then a second, different label set of the lengths <= 20 (a call sequence within one process)
+    for n in list(range(0, nmax + 1)) + list(range(20, 3, -1)):
         labs = labels_for(rng, n)
-        ys, exc = collect(fp.pair_within_simultaneously, list(labs))
-        case = {'fn': 'pair_within_simultaneously', 'labels': labs}
+        kind = vary('pair_within_simultaneously', rng, probe)
+        ys, exc = collect(fp.pair_within_simultaneously, cont(kind, labs))
+        case = {'fn': 'pair_within_simultaneously', 'labels': labs, 'container': kind}
+        s.count('container:' + kind)
         s.case(case, nontrivial=n >= 4)
         s.count('n%%4=%d' % (n % 4))
         if exc:
@@ -402,11 +703,19 @@ def stream_binned(ctx, fp):
     rng = rng_for(ctx.seed, 'c18-binned')
     t = 'thorough' if ctx.drift else ctx.tier
     b = Batch(ctx, s)
+    harden(s, rng_for(ctx.seed, 'c18-binned-state'), rate_for(ctx))
+    probe_sym = lambda conv: [_collect_raw(fp.pair_within_simultaneously_symmetric, conv(nf), conv(ns), seconds=5)  # noqa: E731
+                              for nf, ns in ((1, 0), (2, 1), (3, 1), (4, 2), (3, 0))]
+    probe_bin = probe_gen(lambda l, conv: fp.pair_within_simultaneously_binned([conv(l[:len(l) // 2]), conv(l[len(l) // 2:])]),
+                          range(1, 12))
+    probe_outer = probe_gen(lambda l, conv: fp.pair_within_simultaneously_binned(conv([l[:len(l) // 2], l[len(l) // 2:]])),
+                            range(1, 12))
     fmax = budget(t, 9, 14)
     for ns in range(0, 4):
         for nf in range(0 if ns == 0 else 1, fmax + 1):
-            ys, exc = collect(fp.pair_within_simultaneously_symmetric, nf, ns)
-            case = {'fn': 'pair_within_simultaneously_symmetric', 'num_fermions': nf, 'num_symmetries': ns}
+            ikind = vary_int('symmetric', rng, probe_sym)
+            ys, exc = collect(fp.pair_within_simultaneously_symmetric, conv_int(ikind, nf), conv_int(ikind, ns))
+            case = {'fn': 'pair_within_simultaneously_symmetric', 'num_fermions': nf, 'num_symmetries': ns, 'int_type': ikind}
             s.case(case, nontrivial=nf >= 2)
             s.count('symmetric:ns=%d' % ns)
             if exc:
@@ -436,8 +745,12 @@ def stream_binned(ctx, fp):
         for sz in sizes:
             bins.append(labs[k:k + sz])
             k += sz
-        ys, exc = collect(fp.pair_within_simultaneously_binned, [list(x) for x in bins])
-        case = {'fn': 'pair_within_simultaneously_binned', 'binned_majoranas': bins}
+        kind = vary('binned', rng, probe_bin)
+        okind = vary('binned:outer', rng, probe_outer)
+        okind = okind if okind == 'tuple' else 'list'
+        ys, exc = collect(fp.pair_within_simultaneously_binned, cont(okind, [cont(kind, x) for x in bins]))
+        case = {'fn': 'pair_within_simultaneously_binned', 'binned_majoranas': bins, 'container': kind, 'outer': okind}
+        s.count('container:' + kind)
         s.case(case, nontrivial=tot >= 4)
         s.count('binned:bins=%d' % nb)
         if exc:
@@ -464,6 +777,15 @@ def stream_partitions(ctx, qp):
     rng = rng_for(ctx.seed, 'c18-part')
     t = 'thorough' if ctx.drift else ctx.tier
     b = Batch(ctx, s)
+    harden(s, rng_for(ctx.seed, 'c18-part-state'), rate_for(ctx))
+    probe_b = probe_gen(lambda l, conv: qp.binary_partition_iterator(conv(l)))
+    probe_p = probe_gen(lambda l, conv: itertools.chain(qp.partition_iterator(conv(l), 1), qp.partition_iterator(conv(l), 2),
+                                                        qp.partition_iterator(conv(l), 3), qp.partition_iterator(conv(l), 4, 2)),
+                        range(4, 11))
+    probe_pi = lambda conv: [_collect_raw(qp.partition_iterator, list(range(n)), conv(k), conv(it), seconds=5)  # noqa: E731
+                             for n, k, it in ((5, 1, None), (6, 2, 2), (7, 3, None), (8, 3, 1), (6, 4, None))]
+    probe_ps = lambda conv: [_collect_raw(qp.pauli_string_iterator, conv(n), conv(k), seconds=5)  # noqa: E731
+                             for n, k in ((1, 1), (3, 2), (4, 3), (5, 2))]
     nmax = budget(t, 40, 80)
 
     def conv_bin(m):
@@ -471,14 +793,16 @@ def stream_partitions(ctx, qp):
     for n in range(0, nmax + 1):
         for iters in [None] + ([rng.randint(0, 8)] if n % 3 == 0 else []):
             labs = labels_for(rng, n)
-            ys, exc = collect(qp.binary_partition_iterator, list(labs), iters)
-            case = {'fn': 'binary_partition_iterator', 'qubit_list': labs, 'num_iterations': iters}
+            kind = vary('binary_partition_iterator', rng, probe_b)
+            ys, exc = collect(qp.binary_partition_iterator, cont(kind, labs), iters)
+            case = {'fn': 'binary_partition_iterator', 'qubit_list': labs, 'num_iterations': iters, 'container': kind}
+            s.count('container:' + kind)
             s.case(case, nontrivial=n > 2)
             s.count('binary' + (':ValueError' if exc else ''))
             if exc and exc != 'ValueError':
                 s.violate('unexpected exception ' + exc, case, {})
                 continue
-            impl = None if exc else [[list(p[0]), list(p[1])] for p in ys]
+            impl = None if exc else [[norm(p[0]), norm(p[1])] for p in ys]
             orc = []
             if iters is None and impl is not None:
                 orc.append(('binary_partition_iterator: some pair is never split',
@@ -492,8 +816,12 @@ def stream_partitions(ctx, qp):
         for n in range(0, pmax + 1 - (2 if k >= 4 else 0)):
             for iters in [None] + ([rng.randint(0, 5)] if (n + k) % 2 == 0 else []):
                 labs = labels_for(rng, n)
-                ys, exc = collect(qp.partition_iterator, list(labs), k, iters)
-                case = {'fn': 'partition_iterator', 'qubit_list': labs, 'partition_size': k, 'num_iterations': iters}
+                kind = vary('partition_iterator', rng, probe_p)
+                ikind = vary_int('partition_iterator:int', rng, probe_pi)
+                ys, exc = collect(qp.partition_iterator, cont(kind, labs), conv_int(ikind, k), conv_int(ikind, iters))
+                case = {'fn': 'partition_iterator', 'qubit_list': labs, 'partition_size': k, 'num_iterations': iters,
+                        'container': kind, 'int_type': ikind}
+                s.count('container:' + kind)
                 s.case(case, nontrivial=n > k >= 2)
                 s.count('partition:k=%d' % k + (':ValueError' if exc else ''))
                 if exc and exc != 'ValueError':
@@ -502,7 +830,7 @@ def stream_partitions(ctx, qp):
                 admissible = n >= k and (k != 2 or n >= 2)
                 if exc and admissible:
                     s.violate('ValueError on an admissible input', case, {})
-                impl = {'ys': [] if exc else [[list(p) for p in part] for part in ys], 'raises': bool(exc)}
+                impl = {'ys': [] if exc else [[norm(p) for p in part] for part in ys], 'raises': bool(exc)}
                 orc = []
                 if iters is None and not exc:
                     orc.append(('partition_iterator: a k-subset is never perfectly split (or a yield is not a k-partition)',
@@ -511,8 +839,9 @@ def stream_partitions(ctx, qp):
     letter = {'I': 0, 'X': 1, 'Y': 2, 'Z': 3}
     for k in range(0, 4):
         for n in range(0, budget(t, 7, 9) + 1 - (1 if k == 3 else 0)):
-            ys, exc = collect(qp.pauli_string_iterator, n, k)
-            case = {'fn': 'pauli_string_iterator', 'num_qubits': n, 'max_word_size': k}
+            ikind = vary_int('pauli_string_iterator', rng, probe_ps)
+            ys, exc = collect(qp.pauli_string_iterator, conv_int(ikind, n), conv_int(ikind, k))
+            case = {'fn': 'pauli_string_iterator', 'num_qubits': n, 'max_word_size': k, 'int_type': ikind}
             s.case(case, nontrivial=n > k >= 2)
             s.count('pauli:k=%d' % k + (':ValueError' if exc else ''))
             if exc and exc != 'ValueError':
@@ -579,76 +908,164 @@ def canon_groups(g):
     return [[[list(f) for f in k], [[[list(f) for f in t], list(c)] for t, c in v]] for k, v in g]
 
 
-def rand_qubit_operator(of, rng):
+COEF_TYPES = ['float32', 'complex64', 'int64', 'int32', 'bool']
+
+
+def coef_as(kind, c):
+    import numpy
+    if kind == 'float32':
+        return numpy.float32(c)
+    if kind == 'complex64':
+        return numpy.complex64(c)
+    if kind == 'int64':
+        return numpy.int64(c)
+    if kind == 'int32':
+        return numpy.int32(c)
+    if kind == 'bool':
+        return True
+    return c
+
+
+def coef_accepted(of, qp, kind):
+    """does the tree under test group an operator whose `.terms` hold coefficients of this numpy type (same groups,
+    same values as with Python numbers)?  probed once per run; a rejected type is never used"""
+    def build(conv):
+        op = of.QubitOperator()
+        for j, term in enumerate([((0, 'X'),), ((0, 'X'), (1, 'Z')), ((1, 'Y'),), ((2, 'Z'), (3, 'Z')), ()]):
+            op.terms[term] = conv(1 if kind == 'bool' else j + 1)
+        return op
+    return accepted(('tpb-coef', kind),
+                    lambda: _call1_raw(lambda: enc_groups(qp.group_into_tensor_product_basis_sets(build(lambda c: c), 3))),
+                    lambda: _call1_raw(lambda: enc_groups(qp.group_into_tensor_product_basis_sets(build(lambda c: coef_as(kind, c)), 3))))
+
+
+def rand_qubit_operator(of, qp, rng, big=False):
     nq = rng.choice([1, 2, 3, 3, 4, 4, 5, 6, 8])
     nterms = rng.choice([0, 1, 2, 3, 4, 6, 8, 10, 14])
+    if big:
+        nq, nterms = rng.choice([9, 12, 17, 20]), rng.choice([17, 24, 40])
+    # qubit indices: 0..nq-1, or nq indices spread over 0..600 (beyond the CPython small-int cache)
+    r = rng.random()
+    pool = list(range(nq)) if r < 0.7 else sorted(rng.sample(range(0, 600), nq)) if r < 0.85 else \
+        sorted(rng.sample(range(257, 300), nq))
     op = of.QubitOperator()
+    small = rng.random() < 0.3
     for _ in range(nterms):
         w = rng.choice([0, 1, 1, 2, 2, 3, 4])
-        qs = sorted(rng.sample(range(nq), min(w, nq)))
-        term = tuple((q, rng.choice('XYZ')) for q in qs)
+        qs = sorted(rng.sample(pool, min(w, nq)))
+        # int(str(q)): a fresh int object per factor (equal indices >= 257 are then distinct objects)
+        term = tuple((int(str(q)), rng.choice('XYZ')) for q in qs)
         r = rng.random()
         if r < 0.06:
             c = 0.0
         else:
             c = rng.choice([1, -1, 2, 3]) / rng.choice([1, 2, 4, 8])
-            if r < 0.3:
-                c = complex(c, rng.choice([1, -1, 2]) / rng.choice([1, 2, 4]))
-            elif r < 0.45 and float(c).is_integer():
+            if small and rng.random() < 0.5:
+                # 6e-5 .. 1.2e-7 next to O(1) coefficients (dyadic; a decade above the 1e-8 pruning threshold)
+                c = rng.choice([1, -1, 3]) * 2.0 ** (-rng.randint(14, 23))
+            if r < 0.25:
+                re = rng.choice([c, c, 0.0])              # purely imaginary coefficients included
+                c = complex(re, rng.choice([1, -1, 2]) / rng.choice([1, 2, 4]) * (2.0 ** -17 if small and rng.random() < 0.3 else 1))
+            elif r < 0.40 and float(c).is_integer():
                 c = int(c)                      # Python int coefficient
-            elif r < 0.55:
+            elif r < 0.50:
                 import numpy
                 c = numpy.float64(c)            # numpy scalar coefficient
+            elif r < 0.65:
+                kind = rng.choice(COEF_TYPES)
+                if coef_accepted(of, qp, kind) and (kind in ('float32', 'complex64') or float(c).is_integer()):
+                    c = coef_as(kind, c)
         op.terms[term] = c
     return op
 
 
 def stream_tpb(ctx, of, qp):
-    s = Stream('tensor-product-basis-groups', 'random QubitOperators (<= 8 qubits, <= 14 terms, identity and zero-coefficient terms '
-               'included) x seeds; the permutations drawn by RandomState(seed).shuffle are recorded and given to the Model; groups '
+    s = Stream('tensor-product-basis-groups', 'random QubitOperators (<= 8 qubits, <= 14 terms; a fraction with up to 20 qubits / 40 '
+               'terms; qubit indices also >= 257; identity and zero-coefficient terms, coefficients 2^-14 .. 2^-23 next to O(1), purely '
+               'imaginary ones, Python int / numpy scalar coefficients placed into .terms) x seeds; the permutations drawn by '
+               'RandomState(seed).shuffle are recorded and given to the Model; groups '
                'compared exactly in dictionary order; Spec: keys are distinct tensor-product bases, every term of a group is diagonal '
                'in its key, groups partition the non-zero terms with their coefficients; _find_compatible_basis compared directly; '
-               'non-trivial = at least 2 terms')
+               'operators edited in place (*=, += , deleted terms) are grouped again; non-trivial = at least 2 terms')
     rng = rng_for(ctx.seed, 'c18-tpb')
+    harden(s, rng_for(ctx.seed, 'c18-tpb-state'), rate_for(ctx) / 2)
     t = 'thorough' if ctx.drift else ctx.tier
     b = Batch(ctx, s)
     ncases = budget(t, 1500, 5000)
-    for i in range(ncases):
-        op = rand_qubit_operator(of, rng)
-        seed = rng.choice([None, 0, 1, 2, 3, 7, 11, 12345, rng.randrange(2 ** 31)])
+
+    def grouped(op, seed, edited=None):
         op_enc = enc_op('qubit', op.terms)
-        case = {'fn': 'group_into_tensor_product_basis_sets', 'operator': op_enc, 'seed': seed}
+        case = {'fn': 'group_into_tensor_product_basis_sets', 'operator': op_enc, 'seed': None if seed is None else int(seed),
+                'seed_type': type(seed).__name__}
+        if edited:
+            case['edited_in_place'] = edited
         s.case(case, nontrivial=len(op.terms) >= 2)
         try:
-            (res_log, exc) = call1(tpb_recorded, qp, op, seed)
+            (res_log, exc) = _checked('group_into_tensor_product_basis_sets', [op, seed],
+                                      lambda a: _call1_raw(tpb_recorded, qp, *a), repeat=seed is not None)
             if exc:
                 s.violate('unexpected exception ' + exc, case, {})
-                continue
+                return
             res, log = res_log
             if seed is not None:
                 plain, exc = call1(qp.group_into_tensor_product_basis_sets, op, seed)
                 if exc:
                     s.violate('unexpected exception ' + exc, case, {})
-                    continue
+                    return
                 if enc_groups(plain) != enc_groups(res):
                     # the recording shim does not reproduce numpy's shuffle: harness assumption broken
                     s.discards += 1
                     s.count('shim-mismatch')
-                    continue
+                    return
+                if any(v is op for v in plain.values()):
+                    s.violate('a returned group is the argument itself', case, {})
         except Exception as e:  # noqa: BLE001
             s.violate('unexpected exception ' + type(e).__name__, case, {})
-            continue
+            return
         impl = enc_groups(res)
-        s.count('groups=%d' % min(len(impl), 6))
+        if seed is not None:        # seed None draws from OS entropy: the number of groups is not reproducible
+            s.count('groups=%d' % min(len(impl), 6))
         case['recorded_shuffles'] = log
         b.add(case, canon_groups(impl), {'op': 'c18.tpb', 'operator': op_enc, 'perms': log},
               [('groups are not a partition of the terms into tensor-product-basis sets',
                 {'op': 'c18.spec.tpb', 'operator': op_enc, 'groups': impl}, is_true)], canon_groups)
+
+    for i in range(ncases):
+        op = rand_qubit_operator(of, qp, rng, big=(i % 50 == 7))
+        seed = rng.choice([None, 0, 1, 2, 3, 7, 11, 12345, rng.randrange(2 ** 31)])
+        if rng.random() < 0.1 and seed is not None:
+            import numpy
+            seed = numpy.int64(seed) if seed < 2 ** 31 else seed
+            seed = int(seed) if not accepted(('tpb-seed', 'int64'),
+                                             lambda: _call1_raw(lambda: enc_groups(qp.group_into_tensor_product_basis_sets(
+                                                 of.QubitOperator('X0') + of.QubitOperator('Z0') + of.QubitOperator('Y1'), 5))),
+                                             lambda: _call1_raw(lambda: enc_groups(qp.group_into_tensor_product_basis_sets(
+                                                 of.QubitOperator('X0') + of.QubitOperator('Z0') + of.QubitOperator('Y1'),
+                                                 numpy.int64(5))))) else seed
+        grouped(op, seed)
+        # the same operator object edited in place must be grouped according to its new content
+        if len(op.terms) >= 1 and rng.random() < 0.2:
+            how = rng.choice(['*=2', '+=term', 'del', 'coef'])
+            try:
+                if how == '*=2':
+                    op *= 2
+                elif how == '+=term':
+                    op += of.QubitOperator(((rng.randrange(0, 4), rng.choice('XYZ')), (5, 'Z')), 0.75)
+                elif how == 'del':
+                    del op.terms[rng.choice(list(op.terms))]
+                else:
+                    op.terms[rng.choice(list(op.terms))] = -1.5
+            except Exception:  # noqa: BLE001
+                continue
+            s.count('edited-in-place:' + how)
+            grouped(op, seed, how)
         # _find_compatible_basis directly
         if len(op.terms) >= 2 and i % 3 == 0:
             terms = list(op.terms)
             term = rng.choice(terms)
             bases = [x for x in terms if rng.random() < 0.7]
+            if rng.random() < 0.3:
+                bases = tuple(bases)
             got, exc = call1(qp._find_compatible_basis, term, bases)
             if exc:
                 s.violate('unexpected exception ' + exc, {'fn': '_find_compatible_basis'}, {})
@@ -690,42 +1107,49 @@ def replay(ctx, payload):
     case = v['input']
     fn = case.get('fn')
     d = ctx.driver
+    kind = case.get('container', 'list')
+    ci = lambda x: conv_int(case.get('int_type', 'int'), x)  # noqa: E731
     try:
+        if case.get('state_check'):
+            f = getattr(fp, fn, None) or getattr(qp, fn, None)
+            if f is None or any(isinstance(x, dict) and 'repr' in x for x in case['args']):
+                return None
+            return replay_state(f, case)
         if fn == 'pair_within':
-            ys = [enc_pairing(y) for y in fp.pair_within(list(case['labels']))]
+            ys = [enc_pairing(y) for y in fp.pair_within(cont(kind, case['labels']))]
             return d.one({'op': 'c18.spec.pair_within', 'labels': case['labels'], 'ys': ys}) is True
         if fn == 'pair_between':
-            ys = [enc_pairing(y) for y in fp.pair_between(list(case['frag1']), list(case['frag2']), case['start_offset'])]
+            ys = [enc_pairing(y) for y in fp.pair_between(cont(kind, case['frag1']), cont(kind, case['frag2']), ci(case['start_offset']))]
             return d.one({'op': 'c18.spec.pair_between', 'f1': case['frag1'], 'f2': case['frag2'], 'ys': ys}) is True
         if fn == 'pair_within_simultaneously':
-            ys = [enc_pairing(y) for y in fp.pair_within_simultaneously(list(case['labels']))]
+            ys = [enc_pairing(y) for y in fp.pair_within_simultaneously(cont(kind, case['labels']))]
             return quad_brute([case['labels']], ys) is None
         if fn == 'pair_within_simultaneously_binned':
             bins = case['binned_majoranas']
-            ys = [enc_pairing(y) for y in fp.pair_within_simultaneously_binned([list(x) for x in bins])]
+            ys = [enc_pairing(y) for y in fp.pair_within_simultaneously_binned(cont(case.get('outer', 'list'), [cont(kind, x) for x in bins]))]
             return quad_brute(bins, ys) is None
         if fn == 'pair_within_simultaneously_symmetric':
             nf, ns = case['num_fermions'], case['num_symmetries']
             bins = [[i for i in range(2 * nf) if i % 2 ** ns == bi] for bi in range(2 ** ns)]
-            ys = [enc_pairing(y) for y in fp.pair_within_simultaneously_symmetric(nf, ns)]
+            ys = [enc_pairing(y) for y in fp.pair_within_simultaneously_symmetric(ci(nf), ci(ns))]
             return quad_brute(bins, ys) is None
         if fn == '_get_padding':
-            r = fp._get_padding(case['num_bins'], case['bin_size'])
+            r = fp._get_padding(ci(case['num_bins']), ci(case['bin_size']))
             return d.one({'op': 'c18.spec.padding', 'bins': case['num_bins'], 'size': case['bin_size'], 'r': int(r)}) is True
         if fn == '_asynchronous_iter':
             lists = [[tuple(tuple(i) if isinstance(i, list) else i for i in p) for p in lst] for lst in case['lists']]
             ys = [enc_pairing(y) for y in fp._asynchronous_iter(lists, True)]
             return d.one({'op': 'c18.spec.async', 'lists': case['lists'], 'ys': ys}) is True
         if fn == 'binary_partition_iterator':
-            ys = [[list(p[0]), list(p[1])] for p in qp.binary_partition_iterator(list(case['qubit_list']), case['num_iterations'])]
+            ys = [[norm(p[0]), norm(p[1])] for p in qp.binary_partition_iterator(cont(kind, case['qubit_list']), case['num_iterations'])]
             return d.one({'op': 'c18.spec.partitions', 'labels': case['qubit_list'], 'k': 2, 'ys': ys}) is True
         if fn == 'partition_iterator':
-            ys = [[list(p) for p in part] for part in
-                  qp.partition_iterator(list(case['qubit_list']), case['partition_size'], case['num_iterations'])]
+            ys = [[norm(p) for p in part] for part in
+                  qp.partition_iterator(cont(kind, case['qubit_list']), ci(case['partition_size']), ci(case['num_iterations']))]
             return d.one({'op': 'c18.spec.partitions', 'labels': case['qubit_list'], 'k': case['partition_size'], 'ys': ys}) is True
         if fn == 'pauli_string_iterator':
             letter = {'I': 0, 'X': 1, 'Y': 2, 'Z': 3}
-            ys = [[letter[c] for c in y] for y in qp.pauli_string_iterator(case['num_qubits'], case['max_word_size'])]
+            ys = [[letter[c] for c in y] for y in qp.pauli_string_iterator(ci(case['num_qubits']), ci(case['max_word_size']))]
             return d.one({'op': 'c18.spec.words', 'n': case['num_qubits'], 'k': case['max_word_size'], 'strings': ys}) is True
         if fn == 'group_into_tensor_product_basis_sets':
             from common import from_gq
